@@ -9,7 +9,7 @@ from .. import canon, gen
 from ..core import call_real
 
 ID = "C12"
-LEAN_MODULE = "CKT.Props.C12PTM"
+LEAN_MODULE = "CKT.Props.C12Pass"
 THEOREMS = [
     "CKT.C12.removeInitial_only", "CKT.C12.removeFinal_only", "CKT.C12.consolidate_only",
     "CKT.C12.passRemoveFinalReset_only", "CKT.C12.passConsolidateResets_only",
@@ -20,6 +20,8 @@ THEOREMS = [
     # the four reset laws proved for the Pauli-expectation semantics of dynamic circuits (any gate matrices): T12.3 without assumed laws
     "CKT.Sem.applyL_comm", "CKT.Sem.prim_comm", "CKT.C12PTM.reset_reset", "CKT.C12PTM.ap_reset_comm", "CKT.C12PTM.init_reset", "CKT.C12PTM.ptm",
     "CKT.C12PTM.optimizeResets_statistics", "CKT.C12PTM.each_pass_statistics", "CKT.Sem.resetM_is_channel_ptm",
+    # the two transpiler passes: head-recursive form of the per-wire DAG model, semantic soundness for every semantics obeying the reset laws, and in the PTM semantics
+    "CKT.C12Pass.pfr_eq", "CKT.C12Pass.pcr_eq", "CKT.C12Pass.passRemoveFinalReset_obs", "CKT.C12Pass.passConsolidateResets_run", "CKT.C12Pass.passes_statistics",
 ]
 RULE = ("dynamic circuits over {reset,h,x,sx,cx (both directions),measure,barrier} on 1-4 qubits / 0-4 clbits with up to 16 instructions; "
         "thorough additionally enumerates every program of length <=5 on 2 qubits / 1 clbit (exhaustive); every circuit is pushed through the three "
